@@ -753,11 +753,12 @@ theorem beginCommit_facts {s1 : State} (h : Inv11 s1) (bound : Nat) :
     rfl
   rw [hcc]
   obtain ⟨g1, g2⟩ := commitLoop_prog h2.newOK h2.addedIsNew (stg_step (connTpcBegin s1)) h2.noRec
+    (stepQ_true _) (fun _ _ _ _ _ _ _ _ => trivial) (failInv_true _)
     bound (connTpcBegin s1).registered (connTpcBegin s1) (Prog.refl h2.str) (Stg.refl h2.spNone)
     h2.regOid
-  refine ⟨fun hr => ?_, g2⟩
-  obtain ⟨p1, p2, _, p4⟩ := g1 hr
-  exact ⟨p1, p2, fun i hi k hk => p4 i hi k hk⟩
+  refine ⟨fun hr => ?_, fun hr => (g2 hr).1⟩
+  obtain ⟨p1, p2, _, _, p4⟩ := g1 hr
+  exact ⟨p1, p2, fun i hi k hk => ⟨(p4 i hi k hk).1, (p4 i hi k hk).2.2⟩⟩
 
 /-! ### the transaction-level steps -/
 
